@@ -150,6 +150,7 @@ type World struct {
 	Genesis  int64
 	dirSeq   int
 	Stats    map[string]int
+	Certs    map[common.Hash]*types.BlockCert // real quorum certificates of canonical blocks (when a quorum of held keys exists)
 	beforePropose func(p *Replica)
 	beforeDistribute func(b *types.Block, p *Replica)
 	// OnBlock observers run after a block was inserted into every replica
@@ -435,6 +436,10 @@ func (r *Replica) AddBlock(b *types.Block) error {
 // addCert stores a single-vote certificate signed by god, as upstream's test chain does; it
 // is only bookkeeping for code that looks certificates up (fork bundles build their own).
 func (r *Replica) addCert(b *types.Block) {
+	if c, ok := r.W.Certs[b.Hash()]; ok {
+		r.Chain.WriteCertificate(b.Header.Hash(), c, true)
+		return
+	}
 	vote := &types.Vote{Header: &types.VoteHeader{Round: b.Height(), Step: 1, ParentHash: b.Header.ParentHash(), VotedHash: b.Header.Hash()}}
 	h := crypto.SignatureHash(vote)
 	sig, _ := crypto.Sign(h[:], r.W.God.Key)
@@ -466,6 +471,18 @@ func (w *World) HeadTime() time.Time { return time.Unix(w.Replicas[0].Head().Tim
 // probability emptyPct) and inserts it into every live replica through the receiving path.
 func (w *World) NextBlock(emptyPct int) *BlockResult {
 	res := &BlockResult{Errs: map[string]error{}}
+	if w.Certs == nil {
+		w.Certs = map[common.Hash]*types.BlockCert{}
+	}
+	certify := func(b *types.Block) {
+		v := w.View()
+		if c, ok := w.MakeCert(v, v.AppState.ValidatorsCache, v.Head(), b, types.Final); ok {
+			w.Certs[b.Hash()] = c.Compress()
+			w.Stats["quorum_certs"]++
+		} else {
+			w.Stats["blocks_without_quorum_cert"]++
+		}
+	}
 	el := w.Eligible()
 	if len(el) == 0 || w.Rng.Intn(100) < emptyPct {
 		// an empty block: each replica generates and compares by hash; produce it on a random one
@@ -473,6 +490,10 @@ func (w *World) NextBlock(emptyPct int) *BlockResult {
 		src.enter()
 		b := src.Chain.GenerateEmptyBlock()
 		res.Block = b
+		certify(b)
+		if w.beforeDistribute != nil {
+			w.beforeDistribute(b, nil)
+		}
 		// empty block time = parent + 20s; keep the clock at or after it
 		if t := time.Unix(b.Header.Time(), 0); w.Now().Before(t) {
 			verifclock.Set(t)
@@ -494,6 +515,7 @@ func (w *World) NextBlock(emptyPct int) *BlockResult {
 		}
 		prop := w.Propose(p)
 		res.Block = prop.Block
+		certify(prop.Block)
 		if w.beforeDistribute != nil {
 			w.beforeDistribute(prop.Block, p)
 		}
